@@ -455,6 +455,160 @@ class Faults(Sub):
         return None
 
 
+class WallTimeout(BaseException):
+    pass
+
+
+ACTION_INNER = ['1+1', 'FN(1)+va', 'A1+SUM(A1:B2)', '1+', 'nosuch']
+ACTIONS = ([('parse-same', t) for t in ACTION_INNER] + [('parse-other', 'FN(1)+va+A1')] +
+           [('rearm-all', None), ('chain-all', None), ('once-chain', None), ('off-all', None), ('off-on', None),
+            ('set_variable', None), ('set_function', None), ('new-parser', None)])
+
+
+class Actions(Sub):
+    name = 'c01.callback_actions'
+    rule = ('14 templates x every callback invocation x 14 things a well-behaved host callback may DO besides returning '
+            '(evaluate one of 5 formulas on the SAME parser or another one, subscribe listeners that subscribe further '
+            'listeners when called, re-subscribe itself, unsubscribe everything, rebind a variable or function, build a '
+            'parser): parse returns a well-formed record within the step budget and within a 5 s wall-clock alarm '
+            '(a deadlock executes no Python lines); non-trivial = the action ran')
+    min_cases = 500
+    min_nontrivial = 300
+    min_classes = 5
+    ALARM = 5
+
+    def cases(self, tier, unit):
+        for ti in range(len(TEMPLATES)):
+            for site in range(12):
+                for a in range(len(ACTIONS)):
+                    yield [ti, [[site, a]]]
+            if tier == 'thorough':
+                for s1 in range(6):
+                    for s2 in range(s1 + 1, 7):
+                        for a1 in range(len(ACTIONS)):
+                            for a2 in (1, 6, 7, 9):
+                                yield [ti, [[s1, a1], [s2, a2]]]
+
+    def check(self, env, case):
+        import signal
+        ti, plan_ = case
+        if getattr(env, '_c01_stalls', 0) >= 2:
+            env.note('skipped: two stalls already reported by this worker')
+            return None
+        text = TEMPLATES[ti]
+        plan = dict((s_, a) for s_, a in plan_)
+        counter = {'n': 0, 'fired': 0}
+        box = {}
+
+        def chain(name):
+            st = {'armed': True}
+
+            def listener(*a):
+                if st['armed']:
+                    st['armed'] = False
+                    box['p'].on(name, chain(name))
+            return listener
+
+        def rearm(name):
+            def listener(*a):
+                box['p'].off(name, listener)
+                box['p'].on(name, listener)
+            return listener
+
+        def once_chain(name):
+            def listener(*a):
+                box['p'].once(name, once_chain(name))
+            return listener
+
+        def act(kind, arg):
+            p = box['p']
+            if kind == 'parse-same':
+                p.parse(arg)
+            elif kind == 'parse-other':
+                build().parse(arg)
+            elif kind == 'chain-all':
+                for name in EVENTS:
+                    p.on(name, chain(name))
+            elif kind == 'rearm-all':
+                for name in EVENTS:
+                    p.on(name, rearm(name))
+            elif kind == 'once-chain':
+                for name in EVENTS:
+                    p.once(name, once_chain(name))
+            elif kind == 'off-all':
+                for name in EVENTS:
+                    p.off(name)
+            elif kind == 'off-on':
+                for name in EVENTS:
+                    p.off(name)
+                listen(p)
+            elif kind == 'set_variable':
+                p.set_variable('va', 9)
+                p.set_variable('vb', 1)
+            elif kind == 'set_function':
+                p.set_function('FN', lambda *a: 8)
+                p.set_function('SUM', lambda *a: 8)
+            elif kind == 'new-parser':
+                env.new_parser()
+
+        def site(default_return, setter=None):
+            n = counter['n']
+            counter['n'] += 1
+            a = plan.get(n)
+            if a is not None and box.get('level', 0) == 0:
+                counter['fired'] += 1
+                box['level'] = 1
+                try:
+                    act(*ACTIONS[a])
+                finally:
+                    box['level'] = 0
+            if setter is not None and default_return is not None:
+                setter(default_return)
+            return default_return
+
+        def listen(p):
+            p.on('callFunction', lambda name, args, setter: site(None, setter))
+            p.on('callVariable', lambda name, setter: site(None, setter))
+            p.on('callCellValue', lambda cell, setter: site(3, setter))
+            p.on('callRangeValue', lambda s_, e, setter: site([[1, 2], [3, 4]], setter))
+
+        def build():
+            p = env.new_parser()
+            p.set_variable('va', 4)
+            p.set_function('FN', lambda *a: site(7))
+            listen(p)
+            return p
+
+        p = box['p'] = build()
+
+        def onalarm(signum, frame):
+            raise WallTimeout()
+        old = signal.signal(signal.SIGALRM, onalarm)
+        signal.alarm(self.ALARM)
+        try:
+            try:
+                prob, raw = run_parse(env, p, text)
+            except WallTimeout:
+                env._c01_stalls = getattr(env, '_c01_stalls', 0) + 1
+                prob = ('parse did not return within %d s of wall-clock time (normal: < 10 ms): blocked below the Python '
+                        'level (deadlock)' % self.ALARM)
+        finally:
+            signal.alarm(0)
+            signal.signal(signal.SIGALRM, old)
+        if counter['fired'] < len(plan):
+            env.note('site beyond the template')
+            return None
+        env.nt()
+        for s_, a in plan_:
+            env.note(ACTIONS[a][0])
+        if prob:
+            desc = ', '.join('callback invocation %d does %s%s' % (s_, ACTIONS[a][0], (' %r' % ACTIONS[a][1]) if ACTIONS[a][1] else '')
+                             for s_, a in plan_)
+            return fail('parse(%r) where %s: %s' % (text, desc, prob), None, None)
+        return None
+
+
+
 def corpus():
     from .c05 import HAND, SEP
     out = []
@@ -502,10 +656,6 @@ class Truncations(Sub):
             elif raw['error'] is not None:
                 env.nt()
         return out
-
-
-class WallTimeout(BaseException):
-    pass
 
 
 REP_UNITS = LEXEMES + ['\\a', '\\"', "\\'", '\\\\', 'a\\', '""', "''", '1.', '.1', 'A1:', '$', 'é"', '0', 'E', 'e1']
@@ -636,4 +786,4 @@ class Deep(Sub):
         return None
 
 
-SUBS = [Soups(), CodePoints(), Functions(), Faults(), Truncations(), Repetition(), Deep()]
+SUBS = [Soups(), CodePoints(), Functions(), Faults(), Actions(), Truncations(), Repetition(), Deep()]
